@@ -1431,6 +1431,22 @@ impl<'input, T: Input> Scanner<'input, T> {
     }
 
     fn fetch_flow_collection_end(&mut self, tok: TokenType<'input>) -> ScanResult {
+        // A flow collection is closed by its own kind of bracket: not a sequence by `}` (which
+        // would be taken for the end of an implicit mapping inside it) nor a mapping by `]`.
+        if let Some(state) = self.implicit_flow_mapping_states.last() {
+            let in_mapping = *state == ImplicitMappingState::Mapping;
+            if in_mapping != matches!(tok, TokenType::FlowMappingEnd) {
+                return Err(ScanError::new_str(
+                    self.mark,
+                    if in_mapping {
+                        "while parsing a flow mapping, did not find expected ',' or '}'"
+                    } else {
+                        "while parsing a flow sequence, expected ',' or ']'"
+                    },
+                ));
+            }
+        }
+
         self.remove_simple_key()?;
         self.decrease_flow_level();
 
